@@ -37,3 +37,39 @@ func verifJSONRoundTrip(d Decimal) (Decimal, error, error, bool) {
 	eq := v.Equal(d)
 	return v, err1, err2, eq
 }
+
+// verifCmpOrder: the comparisons of three values in both directions (antisymmetry, transitivity).
+func verifCmpOrder(x, y, z Decimal) (xy, yx, yz, xz CmpResult) {
+	xy = x.Cmp(y)
+	yx = y.Cmp(x)
+	yz = y.Cmp(z)
+	xz = x.Cmp(z)
+	return xy, yx, yz, xz
+}
+
+// verifCompareOrder: Compare is a total order with NaN first.
+func verifCompareOrder(x, y, z Decimal) (xy, yx, yz, xz, xx int) {
+	xy = Compare(x, y)
+	yx = Compare(y, x)
+	yz = Compare(y, z)
+	xz = Compare(x, z)
+	xx = Compare(x, x)
+	return xy, yx, yz, xz, xx
+}
+
+// verifFrexpLdexp is Ldexp(Frexp(d)) compared with d.
+func verifFrexpLdexp(d Decimal) (Decimal, bool) {
+	frac, e := Frexp(d)
+	r := Ldexp(frac, e)
+	eq := r.Equal(d)
+	return r, eq
+}
+
+// verifDecomposeCompose is Compose(Decompose(d)) compared with d (buf: the caller's reusable buffer).
+func verifDecomposeCompose(d Decimal, buf []byte) (Decimal, error, bool) {
+	var v Decimal
+	form, neg, sig, exp := d.Decompose(buf)
+	err := v.Compose(form, neg, sig, exp)
+	eq := v.Equal(d)
+	return v, err, eq
+}
